@@ -433,12 +433,22 @@ func TestMutatedScopes(t *testing.T) {
 	}()
 	perDesc := ev.N(400, 100000)
 	ev.Check(t, "scopes", 12, 300, func(rt *rapid.T) {
-		o := opts(2)
+		// depth 3 is needed for scopes nested inside the root scope (a property, item or value typed as a scope)
+		o := opts(rapid.IntRange(2, 3).Draw(rt, "depth"))
 		s := gen.Spec(o).Draw(rt, "spec")
 		gen.AddDefaults(rt, s, o)
 		desc, ok := describeScope(s)
 		if !ok {
 			rt.Skip("not describable (C09)")
+		}
+		nested := 0
+		spec.Walk(s, func(n *spec.Spec) {
+			if n.Kind == spec.KScope && n != s {
+				nested++
+			}
+		})
+		if nested > 0 {
+			ev.Class("description_with_nested_scope", 1)
 		}
 		inputs := append([]val.V(nil), stdInputs...)
 		for i := 0; i < 3; i++ {
